@@ -229,6 +229,30 @@ func (chkC03) CheckTrans(t *TransCtx) []Viol {
 			out = append(out, Viol{"C03.final-is-final", "payment-changed-after-close", fmt.Sprintf("%s: payment %s changed after it was %s", t.Act.Name, shortKey(w, k), p.State)})
 		}
 	}
+	// a closed record never pays out: every coin an address receives in this transaction is accounted for by the
+	// change of the records it owns (refund = drop of an account's balance, payout = growth of a payment's withdrawn
+	// total). Records that were final before the transaction cannot change (checked above), so anything received
+	// beyond this was paid on behalf of a record that had already been closed within the same transaction
+	// (round-7 seed C03-13: AccountClose fired its hooks before persisting, the lease was paid out twice while the
+	// records showed a single payout).
+	{
+		flows := ownerFlows(t.Pre, t.Post)
+		esc := w.Escrow.String()
+		var names []string
+		for a := range t.Post.Bal {
+			names = append(names, a)
+		}
+		sort.Strings(names)
+		for _, a := range names {
+			if a == esc {
+				continue
+			}
+			if d := t.Post.Bal[a] - t.Pre.Bal[a]; d > flows[a] {
+				out = append(out, Viol{"C03.no-payout-beyond-records", "paid-beyond-records:" + t.Act.Kind,
+					fmt.Sprintf("%s: %s received %d but the escrow records it owns account for %d: a payout or refund was made for a record already closed", t.Act.Name, w.Cast.Name[a], d, flows[a])})
+			}
+		}
+	}
 	// a successful close request takes effect, also with zero elapsed blocks / zero balance
 	cond := func(pre *Snap, accKey string) string {
 		a, ok := pre.Accounts[accKey]
@@ -369,6 +393,23 @@ func (chkC05) CheckState(w *World, s *Snap, st State) []Viol {
 		case "bid":
 			if b, ok := s.Bids[a.ID.XID]; !ok || (b.State != mtypes.BidOpen && b.State != mtypes.BidActive) {
 				out = append(out, Viol{"C05.bid-account", "account-open/bid-not-live", "open bid deposit account without live bid: " + shortKey(w, ak)})
+			}
+			// "a provider's bid deposit is returned exactly when the bid OR THE DEPLOYMENT ends": a deposit still held
+			// implies that the deployment the bid was made on is active (round-7 seed C05-13: the account-closed hook
+			// stopped at the first group that was already closed; the later groups' bids stayed open, deposits held,
+			// under a closed deployment — bid and deposit account agreed with each other all along)
+			if parts := strings.Split(a.ID.XID, "/"); len(parts) == 5 {
+				owner := parts[0]
+				if addr, err := sdk.AccAddressFromBech32(owner); err == nil {
+					owner = addr.String()
+				}
+				if d, ok := s.Deployments[owner+"/"+parts[1]]; !ok || d.State != dtypes.DeploymentActive {
+					ds := "absent"
+					if ok {
+						ds = d.State.String()
+					}
+					out = append(out, Viol{"C05.deposit-follows-deployment", "bid-deposit-held/deployment-" + ds, fmt.Sprintf("bid deposit account %s is still open (deposit not returned) although its deployment is %s", shortKey(w, ak), ds)})
+				}
 			}
 		default:
 			out = append(out, Viol{"C05.scope", "scope", "escrow account of unknown scope " + ak})
